@@ -595,7 +595,7 @@ func recursiveCase(g *hc.Gen, pr *hc.Proc, o *hc.Out, x *qgen) {
 	e := newEnc()
 	ap := strings.Join(e.query(anchor), " ")
 	sp := strings.Join(e.query(step), " ")
-	op := fmt.Sprintf("c03.rec %d %d %s %s %s", cpu, limit, e.header(), ap, sp)
+	op := fmt.Sprintf("c03.rec %d %d %s %s %s #%s", cpu, limit, e.header(), ap, sp, hc.Hex(sql))
 	impl := ""
 	if err != nil {
 		if _, ok := err.(*query.RecursionExceededLimitError); !ok {
@@ -628,7 +628,7 @@ func recursiveCase(g *hc.Gen, pr *hc.Proc, o *hc.Out, x *qgen) {
 			ap2 := strings.Join(e2.query(anchor), " ")
 			sp2 := strings.Join(e2.query(step), " ")
 			fp2 := strings.Join(e2.query(fq), " ")
-			o.Case(fmt.Sprintf("c03.rec %d %d %s %s %s %s", cpu, limit, e2.header(), ap2, sp2, fp2), canon(v2))
+			o.Case(fmt.Sprintf("c03.rec %d %d %s %s %s %s #%s", cpu, limit, e2.header(), ap2, sp2, fp2, hc.Hex(sql2)), canon(v2))
 			o.Count("recursive:" + fq.tag)
 			o.NonTrivial("rec:" + queryShape(fq, nil, 0) + "|" + band(v2.RecordLen()))
 		}
